@@ -1,6 +1,7 @@
 package props
 
 import (
+	"fmt"
 	"reflect"
 	"regexp"
 	"strings"
@@ -158,6 +159,11 @@ func TestC06_Analysis(t *testing.T) {
 	rapid.Check(t, func(t *rapid.T) {
 		word := rapid.OneOf(rapid.SampledFrom(c06NLPWords), rapid.SampledFrom(c06NLPWords), gen.Word(), gen.UWord(true))
 		q := gen.TextOf(word, 0, 14).Draw(t, "q")
+		if rapid.IntRange(0, 5).Draw(t, "many-words") == 0 {
+			// a pasted sentence or two: dozens of distinct words, every one of them the user's own
+			many := rapid.OneOf(rapid.SampledFrom(gen.NLPWords), rapid.SampledFrom(gen.NLPWords), rapid.StringMatching(`[a-z]{3,9}`), rapid.SampledFrom(c06NLPWords))
+			q = strings.Join(rapid.SliceOfN(many, 15, 70).Draw(t, "q-many"), " ")
+		}
 		if rapid.IntRange(0, 5).Draw(t, "arbitrary") == 0 {
 			q = rapid.String().Draw(t, "qa")
 		}
@@ -182,7 +188,7 @@ func TestC06_Analysis(t *testing.T) {
 		}
 		// the user's own keyword-bearing words, first-occurrence order
 		var own []string
-		seen := map[string]bool{}
+		seen, introduced := map[string]bool{}, map[string]bool{}
 		// the user's words: lower-cased text with everything but letters, digits, '_', '-', '.'
 		// and blanks turned into separators (derived from the statement, not from pq.Cleaned)
 		for _, w := range strings.Fields(c06NotWord.ReplaceAllString(strings.ToLower(q), " ")) {
@@ -192,16 +198,21 @@ func TestC06_Analysis(t *testing.T) {
 			seen[w] = true
 			alone := p.ProcessQuery(w)
 			for _, k := range alone.Keywords {
-				if k == w {
+				if k == w && !introduced[w] {
 					own = append(own, w)
 					break
 				}
+			}
+			// a word that an earlier word already brought along (its synonym) takes that earlier
+			// place in the de-duplicated list: its own position says nothing about the user's order
+			for _, k := range alone.Keywords {
+				introduced[k] = true
 			}
 		}
 		if !isSubsequence(own, a.Keywords) {
 			t.Fatalf("the user's keyword words %v do not appear in that order in the extracted keywords %v (query %q)", own, a.Keywords, q)
 		}
 		nt := len(own) >= 2 && len(enh) > len(a.Keywords)
-		rec.Case(nt, map[string]any{"analysis_of": q, "keywords": a.Keywords, "expanded": enh, "intent": a.Intent}, "analysis")
+		rec.Case(nt, map[string]any{"analysis_of": q, "keywords": a.Keywords, "expanded": enh, "intent": a.Intent}, "analysis", fmt.Sprintf("keywords>24:%v", len(a.Keywords) > 24))
 	})
 }
